@@ -1035,6 +1035,10 @@ func (s *Store) Balance(ns walletdb.ReadBucket, minConf int32, syncHeight int32)
 		return 0, err
 	}
 
+	// Cache the current time so that every lock check below sees the same
+	// state of an output lock, even if it expires while we're iterating.
+	now := s.clock.Now()
+
 	// Subtract the balance for each credit that is spent by an unmined
 	// transaction.
 	var op wire.OutPoint
@@ -1050,7 +1054,7 @@ func (s *Store) Balance(ns walletdb.ReadBucket, minConf int32, syncHeight int32)
 		}
 
 		// Subtract the output's amount if it's locked.
-		_, _, isLocked := isLockedOutput(ns, op, s.clock.Now())
+		_, _, isLocked := isLockedOutput(ns, op, now)
 		if isLocked {
 			_, v := existsCredit(ns, &op.Hash, op.Index, &block)
 			amt, err := fetchRawCreditAmount(v)
@@ -1111,9 +1115,7 @@ func (s *Store) Balance(ns walletdb.ReadBucket, minConf int32, syncHeight int32)
 				// if it was already removed for being spent by
 				// an unmined tx or being locked.
 				op = wire.OutPoint{Hash: *txHash, Index: i}
-				_, _, isLocked := isLockedOutput(
-					ns, op, s.clock.Now(),
-				)
+				_, _, isLocked := isLockedOutput(ns, op, now)
 				if isLocked {
 					continue
 				}
@@ -1155,7 +1157,7 @@ func (s *Store) Balance(ns walletdb.ReadBucket, minConf int32, syncHeight int32)
 
 			// Skip adding the balance for this output if it's
 			// locked.
-			_, _, isLocked := isLockedOutput(ns, op, s.clock.Now())
+			_, _, isLocked := isLockedOutput(ns, op, now)
 			if isLocked {
 				return nil
 			}
